@@ -220,7 +220,12 @@ func (w *world) step(op string) (status string) {
 		}
 		switch f[1] {
 		case "rm":
-			t = tensor.New(append(co, tensor.WithShape(sh...), tensor.WithBacking(b))...)
+			if w.alt && len(sh) > 0 {
+				// the other constructor: NewDense(dtype, shape, options) takes its shape list another way
+				t = tensor.NewDense(dtypeOf(w.dt), tensor.Shape(append([]int(nil), sh...)), append(co, tensor.WithBacking(b))...)
+			} else {
+				t = tensor.New(append(co, tensor.WithShape(sh...), tensor.WithBacking(b))...)
+			}
 		case "cm":
 			t = tensor.New(append(co, tensor.WithShape(sh...), tensor.WithBacking(b), tensor.AsFortran(nil))...)
 		case "cmb":
